@@ -27,7 +27,20 @@ timeout 3000 /venv/bin/python -m pytest -q -p no:cacheprovider --timeout=900 -n 
 tail -1 /tmp/cm/$ID-suite.log
 python3 /verif/tools/suite_vs_baseline.py /tmp/cm/$ID-suite.log > /tmp/cm/$ID-cmp.txt; cat /tmp/cm/$ID-cmp.txt | head -3
 serial_ok=1
-grep -q STABLE-FAIL /tmp/cm/$ID-cmp.txt && serial_ok=0
+if grep -q STABLE-FAIL /tmp/cm/$ID-cmp.txt; then
+  # wall-clock based tests (test_stragglers) flake under load: re-run the failed stable tests alone, twice at most
+  grep STABLE-FAIL /tmp/cm/$ID-cmp.txt | awk '{print $2}' | python3 -c "
+import sys
+for l in sys.stdin:
+    mod, name = l.strip().split('::', 1)
+    print(mod.replace('.', '/') + '.py::' + name)
+" > /tmp/cm/$ID-rerun.txt
+  serial_ok=0
+  for attempt in 1 2; do
+    if timeout 1500 /venv/bin/python -m pytest -q -p no:cacheprovider --timeout=900 $(cat /tmp/cm/$ID-rerun.txt | tr '\n' ' ') > /tmp/cm/$ID-rerun.log 2>&1; then serial_ok=1; break; fi
+  done
+  grep -E "passed|failed" /tmp/cm/$ID-rerun.log | tail -1
+fi
 echo "serial_ok=$serial_ok"
 if [ $rc_clean -eq 0 ] && [ $rc_mut -ne 0 ] && [ $serial_ok -eq 1 ]; then
   D=/verif/seeded/$ID; mkdir -p $D
